@@ -14,6 +14,7 @@ package m04
 import (
 	"fmt"
 	"reflect"
+	"strings"
 
 	"github.com/robertkrimen/otto/ast"
 )
@@ -22,10 +23,24 @@ import (
 type RNode struct {
 	Node   ast.Node
 	Type   string // e.g. "*ast.ForStatement"
-	Path   string // field path from the root, e.g. "Body[2].Consequent.List[0]"
+	Step   string // field path from the parent node, e.g. ".Body[2]" or ".ParameterList.List[0]"
 	Parent *RNode
 	Kids   []*RNode
 	Absent []string // optional children (fields of a Node type) that hold a nil interface or a nil pointer
+}
+
+// Path is the field path from the root, e.g. "Program.Body[2].Consequent.List[0]" (built on
+// demand: stored paths would take quadratic space on deeply nested input).
+func (n *RNode) Path() string {
+	var steps []string
+	for x := n; x != nil; x = x.Parent {
+		steps = append(steps, x.Step)
+	}
+	var b strings.Builder
+	for i := len(steps) - 1; i >= 0; i-- {
+		b.WriteString(steps[i])
+	}
+	return b.String()
 }
 
 // Tree is the result of Reflect.
@@ -57,9 +72,9 @@ func Reflect(prog *ast.Program) *Tree {
 
 type builder struct{ t *Tree }
 
-func (b *builder) absent(parent *RNode, path string) {
+func (b *builder) absent(parent *RNode, step string) {
 	if parent != nil {
-		parent.Absent = append(parent.Absent, path)
+		parent.Absent = append(parent.Absent, step)
 	}
 	b.t.Absent++
 }
@@ -98,10 +113,14 @@ func (b *builder) value(v reflect.Value, parent *RNode, path string) {
 		}
 		n := v.Interface().(ast.Node)
 		if _, seen := b.t.ByNode[n]; seen {
-			b.t.Shared = append(b.t.Shared, path)
+			where := path
+			if parent != nil {
+				where = parent.Path() + path
+			}
+			b.t.Shared = append(b.t.Shared, where)
 			return
 		}
-		rn := &RNode{Node: n, Type: v.Type().String(), Path: path, Parent: parent}
+		rn := &RNode{Node: n, Type: v.Type().String(), Step: path, Parent: parent}
 		b.t.ByNode[n] = rn
 		b.t.Nodes = append(b.t.Nodes, rn)
 		if parent != nil {
@@ -109,7 +128,7 @@ func (b *builder) value(v reflect.Value, parent *RNode, path string) {
 		} else {
 			b.t.Root = rn
 		}
-		b.fields(v.Elem(), rn, path)
+		b.fields(v.Elem(), rn, "")
 	case reflect.Struct:
 		if v.Type().PkgPath() != astPkg {
 			return
